@@ -15,14 +15,18 @@ import (
 	"fmt"
 	"os"
 	"runtime"
+	"runtime/debug"
 	"sort"
 	"strings"
 	"sync"
 	"testing"
+	"time"
 
+	"github.com/synnaxlabs/x/confluence"
 	xcontrol "github.com/synnaxlabs/x/control"
 	"github.com/synnaxlabs/x/errors"
 	xfs "github.com/synnaxlabs/x/io/fs"
+	"github.com/synnaxlabs/x/signal"
 	"github.com/synnaxlabs/x/telem"
 	"github.com/synnaxlabs/x/validate"
 )
@@ -46,7 +50,10 @@ type vuResult struct {
 	Act  string `json:"act,omitempty"`
 }
 
-func vuReplay(hist []vuStep) (step int, exp, act string) {
+// vuReplay modes: 0 = persisted channels; 1 = persisted channels, and the transfers published
+// on the control-update channel are replayed by a streamer: the holder they reconstruct
+// must be the specification's holder after every step; 2 = the same on a virtual channel.
+func vuReplay(hist []vuStep, mode int) (step int, exp, act string) {
 	ctx := context.Background()
 	db, err := Open(ctx, "", WithFS(xfs.NewMem()))
 	if err != nil {
@@ -59,12 +66,102 @@ func vuReplay(hist []vuStep) (step int, exp, act string) {
 	if err := db.CreateChannel(ctx, Channel{Key: 2, Name: "D", DataType: telem.Int64T, Index: 1}); err != nil {
 		return 0, "create", err.Error()
 	}
+	chans := []ChannelKey{1, 2}
+	if mode == 2 {
+		if err := db.CreateChannel(ctx, Channel{Key: 3, Name: "V", DataType: telem.Int64T, Virtual: true}); err != nil {
+			return 0, "create", err.Error()
+		}
+		chans = []ChannelKey{3}
+	}
 	writers := map[string]*Writer{}
 	defer func() {
 		for _, w := range writers {
 			_ = w.Close()
 		}
 	}()
+	// digest consumer: replays every published transfer per resource
+	holder := map[ChannelKey]string{}
+	var digests func(want string, settle time.Duration) bool
+	if mode != 0 {
+		const digestKey = ChannelKey(4_000_000_000)
+		if err := db.ConfigureControlUpdateChannel(ctx, digestKey, "control"); err != nil {
+			return 0, "configure control update channel", err.Error()
+		}
+		streamer, err := db.NewStreamer(ctx, StreamerConfig{Channels: []ChannelKey{digestKey}, SendOpenAck: true})
+		if err != nil {
+			return 0, "open digest streamer", err.Error()
+		}
+		stIn, stOut := confluence.Attach(streamer, 64)
+		sCtx, cancel := signal.Isolated()
+		streamer.Flow(sCtx, confluence.CloseOutputInletsOnExit())
+		defer func() {
+			stIn.Close()
+			cancel()
+		}()
+		select {
+		case <-stOut.Outlet():
+		case <-time.After(20 * time.Second):
+			return 0, "digest streamer acknowledges", "no acknowledgement within 20s"
+		}
+		consume := func(res StreamerResponse) {
+			for _, sr := range res.Frame.SeriesSlice() {
+				u, err := DecodeControlUpdate(sr)
+				if err != nil {
+					continue
+				}
+				for _, tr := range u.Transfers {
+					switch {
+					case tr.To != nil:
+						holder[tr.To.Resource] = tr.To.Subject.Key
+					case tr.From != nil:
+						holder[tr.From.Resource] = ""
+					}
+				}
+			}
+		}
+		matches := func(want string) bool {
+			for _, c := range chans {
+				if holder[c] != want {
+					return false
+				}
+			}
+			return true
+		}
+		// reads published updates until the replayed holder of every channel is `want`
+		// (at most 20 s: publication is asynchronous), then whatever else arrives within
+		// `settle`; reports whether the replayed holder is `want` at the end
+		digests = func(want string, settle time.Duration) bool {
+			deadline := time.After(20 * time.Second)
+			for !matches(want) {
+				select {
+				case res, ok := <-stOut.Outlet():
+					if !ok {
+						return false
+					}
+					consume(res)
+				case <-deadline:
+					return false
+				}
+			}
+			for {
+				select {
+				case res, ok := <-stOut.Outlet():
+					if !ok {
+						return matches(want)
+					}
+					consume(res)
+				case <-time.After(settle):
+					return matches(want)
+				}
+			}
+		}
+	}
+	wantHolder := func(st vuStep) string {
+		if st.Curr == "none" {
+			return ""
+		}
+		return st.Curr
+	}
 	base := telem.TimeStamp(1_000_000_000_000_000)
 	tick := 0
 	var expected []int64 // values of authorized writes, in order
@@ -74,7 +171,7 @@ func vuReplay(hist []vuStep) (step int, exp, act string) {
 		case "open":
 			eu := st.EU
 			w, err := db.OpenWriter(ctx, WriterConfig{
-				Channels:          []ChannelKey{1, 2},
+				Channels: chans,
 				// after everything written so far: a writer that opens when no other is
 				// open starts a fresh control region and a fresh domain
 				Start:             base + telem.TimeStamp(tick)*10 + 1,
@@ -120,10 +217,14 @@ func vuReplay(hist []vuStep) (step int, exp, act string) {
 			tick++
 			ts := base + telem.TimeStamp(tick)*10
 			val := subjIdx[s]*1_000_000 + int64(tick)
-			auth, err := writers[s].Write(telem.MultiFrame(
+			fr := telem.MultiFrame(
 				[]ChannelKey{1, 2},
 				[]telem.Series{telem.NewSeriesV[telem.TimeStamp](ts), telem.NewSeriesV[int64](val)},
-			))
+			)
+			if mode == 2 {
+				fr = telem.UnaryFrame[ChannelKey](3, telem.NewSeriesV[int64](val))
+			}
+			auth, err := writers[s].Write(fr)
 			if err != nil {
 				return i, "probe write by " + s + " succeeds", "error: " + err.Error()
 			}
@@ -134,12 +235,23 @@ func vuReplay(hist []vuStep) (step int, exp, act string) {
 				expected = append(expected, val)
 			}
 		}
+		if digests != nil {
+			if want := wantHolder(st); !digests(want, 0) {
+				return i, fmt.Sprintf("published transfers reconstruct holder %q on channels %v", want, chans), fmt.Sprintf("replayed holders %v", holder)
+			}
+		}
 	}
 	for s, w := range writers {
 		if err := w.Close(); err != nil {
 			return len(hist) - 1, "close ok", "close " + s + ": " + err.Error()
 		}
 		delete(writers, s)
+	}
+	if digests != nil && !digests("", 20*time.Millisecond) {
+		return len(hist) - 1, fmt.Sprintf("published transfers reconstruct no holder on channels %v after every writer closed", chans), fmt.Sprintf("replayed holders %v", holder)
+	}
+	if mode == 2 {
+		return -1, "", ""
 	}
 	fr, err := db.Read(ctx, telem.TimeRangeMax, 2)
 	if err != nil {
@@ -186,10 +298,16 @@ func TestVerifControlUser(t *testing.T) {
 				func() {
 					defer func() {
 						if p := recover(); p != nil {
-							res = vuResult{I: j.i, R: "mismatch", Step: -1, Exp: "no panic", Act: fmt.Sprint(p)}
+							res = vuResult{I: j.i, R: "mismatch", Step: -1, Exp: "no panic", Act: fmt.Sprint(p) + "\n" + string(debug.Stack())}
 						}
 					}()
-					if step, exp, act := vuReplay(hist); step >= 0 {
+					mode := 0
+					if j.i%4 == 1 {
+						mode = 1
+					} else if j.i%4 == 3 {
+						mode = 2
+					}
+					if step, exp, act := vuReplay(hist, mode); step >= 0 {
 						res = vuResult{I: j.i, R: "mismatch", Step: step, Exp: exp, Act: act}
 					}
 				}()
